@@ -25,6 +25,15 @@ CHECKS = {
             "1e-13 SciPy reference. The ODE layer is sampling.",
             "Trusts SciPy DOP853 at 1e-13 as reference and its RK45/DOP853 as calibration of the tolerance multiple; order criterion p-0.5 on the finest halvings.",
             "DESIGN.md §4 C02"),
+    "C13": ("fault_enumeration",
+            "exhaustive fault-sequence enumeration (accept/reject/raise scripts) on the real predictor-corrector backend against a reference loop model + Hypothesis long scripts + end-to-end families re-checked by independent SciPy propagation",
+            "Every corrector outcome string over {accept, reject, raise} up to length 7 (quick) / 9 (thorough) x a 1536-configuration grid (step sign/magnitude, target "
+            "interval, member and retry limits, natural and secant steppers, shrink policies) is driven through the real _PredictorCorrectorContinuationBackend.run with a "
+            "scripted corrector and compared with a reference model written from the statement (prediction offsets, target stop, clamp/shrink, give-up, counters). "
+            "Hypothesis adds scripts up to length 60 with float steps; end-to-end orbit.generate families have every member re-propagated over its own period with SciPy "
+            "on an independent CR3BP field.",
+            "Outcome strings and grid enumerated exhaustively; longer scripts, float steps and end-to-end families are sampled. Model assumes no step growth after an accept; members exactly on the boundary count as inside.",
+            "DESIGN.md §4 C13"),
     "C19": ("exploration",
             "property-based testing (Hypothesis) with brute-force and exact-rational geometric oracle",
             "Generated cloud pairs / thresholds / segment pairs (lattice ties, parallel, collinear, zero-length, near-parallel) through "
